@@ -221,3 +221,52 @@ def returns_rule(rule_new, rule_inplace, rule_refuse, w):
                                       "instead of being refused", "raise TypeError/ValueError or return NotImplemented", "implicit None")
             else:
                 rule_refuse.ok("modeling.%s:every path returns a value or raises" % q, where)
+
+
+def curvature_sign_rule(rule, w):
+    """Negating a term flips its curvature: a list comprehension that feeds `X._cvxterms` /
+    `X._ccvterms` from `Y._cvxterms` / `Y._ccvterms` crosses sides exactly when its element is
+    the negated loop variable (`-t`), and stays on its side for `+t` / `t`."""
+    m = w.mods["modeling"]
+    n = 0
+    for q, fn in m.funcs.items():
+        for st in pf.stmts_of(fn):
+            if isinstance(st, ast.Assign) and len(st.targets) == 1:
+                tgt, val = st.targets[0], st.value
+            elif isinstance(st, ast.AugAssign):
+                tgt, val = st.target, st.value
+            else:
+                continue
+            if not (isinstance(tgt, ast.Attribute) and tgt.attr in ("_cvxterms", "_ccvterms")):
+                continue
+            for comp in [x for x in ast.walk(val) if isinstance(x, ast.ListComp)]:
+                if len(comp.generators) != 1:
+                    continue
+                g = comp.generators[0]
+                if not (isinstance(g.iter, ast.Attribute) and g.iter.attr in ("_cvxterms", "_ccvterms") and isinstance(g.target, ast.Name)):
+                    continue
+                v = g.target.id
+                e = comp.elt
+                if isinstance(e, ast.UnaryOp) and isinstance(e.op, ast.USub) and isinstance(e.operand, ast.Name) and e.operand.id == v:
+                    neg = True
+                elif (isinstance(e, ast.UnaryOp) and isinstance(e.op, ast.UAdd) and isinstance(e.operand, ast.Name) and e.operand.id == v) \
+                        or (isinstance(e, ast.Name) and e.id == v):
+                    neg = False
+                else:
+                    continue        # scaled terms: the sign depends on the path (mirror rule)
+                n += 1
+                cross = g.iter.attr != tgt.attr
+                key = "modeling.%s:%s <- [%s for .. in %s]" % (q, pf.norm_expr(tgt), pf.norm_expr(e), pf.norm_expr(g.iter))
+                where = m.where(st, fn)
+                if neg == cross:
+                    rule.ok(key, where, "negated terms change side" if neg else "copied terms keep their side")
+                elif neg:
+                    rule.violation(key, where,
+                                   "the negated %s terms of `%s` are filed as %s terms again: minus a convex term is concave, so the curvature "
+                                   "label of the result is wrong" % (g.iter.attr[1:4], pf.norm_expr(g.iter.value), tgt.attr[1:4]),
+                                   "[-t for t in %s.%s]" % (pf.norm_expr(g.iter.value), "_ccvterms" if g.iter.attr == "_cvxterms" else "_cvxterms"),
+                                   pf.norm_expr(comp))
+                else:
+                    rule.violation(key, where, "terms copied without a sign change move from the %s to the %s list" % (g.iter.attr[1:4], tgt.attr[1:4]),
+                                   "same list", pf.norm_expr(comp))
+    return n
